@@ -861,35 +861,72 @@ def rt_json_value(rng, depth):
     return struct(fs), mkopts(), ["st", vs]
 
 
+def part_tag(part, key, o):
+    return part + render_tag(key, o)[4:]
+
+
+def rt_zero(k):
+    return {"str": ["s", ""], "bool": ["b", False]}.get(k, ["i", "0"])
+
+
+def rt_member_opts(rng, k, part):
+    """optional / default= for a scalar member of a request struct (default implies the member may be left out)"""
+    o = mkopts(optional=rng.random() < 0.35)
+    if rng.random() < 0.3:
+        if k == "str":
+            o["default"] = rng.choice(["dflt", "abc"])
+        elif k == "bool":
+            o["default"] = "true"
+        else:
+            o["default"] = rng.choice(["5", "77", "1"])
+    return o
+
+
+def rt_scalar_member(rng, k, part, strs):
+    """(opts, value): explicit zero values included.  Not generated (does not round-trip, c05_roundtrip_form_zero):
+    a form-tagged string "" unless optional without default; path values are never empty."""
+    o = rt_member_opts(rng, k, part) if part != "path" else mkopts()
+    v = rt_scalar(rng, k, strs)
+    if part != "path" and rng.random() < 0.35:
+        v = rt_zero(k)
+    if part == "form" and k == "str" and v[1] == "" and not (o["optional"] and o["default"] is None):
+        v = ["s", rng.choice(strs)]
+    return o, v
+
+
 def rt_case(rng):
     fs, vs, segs = [], [], ["api"]
     pnames = rng.sample(["id", "name", "kind"], rng.choice([0, 1, 1, 2]))
     for i, nm in enumerate(pnames):
         k = rng.choice(RT_SCALARS)
-        f = field("P%d" % i, nm, P(k))
-        f["tag"] = 'path:"%s"' % nm
+        o, v = rt_scalar_member(rng, k, "path", RT_PATH_STR)
+        f = field("P%d" % i, nm, P(k), o)
+        f["tag"] = part_tag("path", nm, o)
         fs.append(f)
-        vs.append(rt_scalar(rng, k, RT_PATH_STR))
+        vs.append(v)
         segs += [":" + nm, rng.choice(["items", "x", "v2"])]
     for i, nm in enumerate(rng.sample(["q", "page", "sort", "flag"], rng.choice([0, 1, 2, 3]))):
         k = rng.choice(RT_SCALARS)
-        opt = rng.random() < 0.3
-        f = field("Q%d" % i, nm, P(k), mkopts(optional=opt))
-        f["tag"] = 'form:"%s%s"' % (nm, ",optional" if opt else "")
-        v = rt_scalar(rng, k, RT_FORM_STR)
-        if opt and k == "str" and rng.random() < 0.3:
-            v = ["s", ""]
+        o, v = rt_scalar_member(rng, k, "form", RT_FORM_STR)
+        f = field("Q%d" % i, nm, P(k), o)
+        f["tag"] = part_tag("form", nm, o)
         fs.append(f)
         vs.append(v)
     for i, nm in enumerate(rng.sample(RT_HDR_KEYS, rng.choice([0, 1, 2]))):
         k = rng.choice(["str", "str", "int", "uint16", "bool"])
-        f = field("H%d" % i, nm, P(k))
-        f["tag"] = 'header:"%s"' % nm
+        o, v = rt_scalar_member(rng, k, "header", RT_HDR_STR)
+        f = field("H%d" % i, nm, P(k), o)
+        f["tag"] = part_tag("header", nm, o)
         fs.append(f)
-        vs.append(rt_scalar(rng, k, RT_HDR_STR))
+        vs.append(v)
     njson = rng.choice([0, 1, 2, 3, 4])
     for i, nm in enumerate(rng.sample(["a", "b", "name", "userName", "size", "tags"], njson)):
         t, o, v = rt_json_value(rng, 1)
+        if t["k"] in RT_SCALARS and not o["string"]:
+            o2, v = rt_scalar_member(rng, t["k"], "json", STRS)
+            o["optional"], o["default"] = o2["optional"], o2["default"]
+        elif t["k"] == "slice" and o["optional"] and rng.random() < 0.3:
+            v = ["sl", []]                       # an optional slice explicitly set to empty
         fs.append(field("J%d" % i, nm, t, o))
         vs.append(v)
     if not fs:
@@ -900,6 +937,109 @@ def rt_case(rng):
     return c
 
 
+# ----------------------------------------------------------------------------- direct Marshal (lib/mapping/marshaler.go)
+def marshal_case(rng):
+    """a request-like struct value through mapping.Marshal; 30% carry one member that validation must reject"""
+    base = rt_case(rng)
+    shape, vals = base["rt_shape"], list(base["value"][1])
+    fs = shape["f"]
+    if rng.random() < 0.3:                                    # an untagged member: part "" under its field name
+        f = field("Plain", "Plain", P("int"), tagged=False)
+        fs.append(f)
+        vals.append(["i", "3"])
+    if rng.random() < 0.3:
+        kind = rng.choice(["nilptr", "emptyslice", "emptymap", "options", "range", "optzero"])
+        if kind == "nilptr":
+            fs.append(field("X", "x", {"k": "ptr", "e": P("int")})); vals.append(["np"])
+        elif kind == "emptyslice":
+            fs.append(field("X", "x", {"k": "slice", "e": P("int")})); vals.append(rng.choice([["ns"], ["sl", []]]))
+        elif kind == "emptymap":
+            fs.append(field("X", "x", {"k": "map", "e": P("int")})); vals.append(rng.choice([["nm"], ["m", []]]))
+        elif kind == "options":
+            fs.append(field("X", "x", P(rng.choice(["str", "int"])), mkopts(options=["1", "a"])))
+            vals.append(["s", "zz"] if fs[-1]["t"]["k"] == "str" else ["i", "9"])
+        elif kind == "range":
+            fs.append(field("X", "x", P("int"), mkopts(rng=(1, True, 5, rng.random() < 0.5)))); vals.append(["i", rng.choice(["0", "5", "6", "3"])])
+        else:                                                 # optional zero values skip options=/range=
+            fs.append(field("X", "x", P("int"), mkopts(optional=True, options=["1", "2"], rng=(1, True, 5, True)))); vals.append(["i", "0"])
+    c = mkcase(rng, struct([]), O([]), ["marshal"], with_yaml=False, with_conf=False)
+    c["marshal"] = {"shape": struct(fs), "value": ["st", vals]}
+    return c
+
+
+# ----------------------------------------------------------------------------- from-string numerics (convertType)
+NUM_STRINGS = ["9223372036854775807", "9223372036854775808", "18446744073709551615", "18446744073709551616", "1e19", "-1e30",
+               "9007199254740993.0", "1.0", "1e3", " 7", "+7", "0x10", "007", "-0", "-9223372036854775808", "-9223372036854775809",
+               "255", "256", "-129", "65536", "4294967296", "7 ", "1_000", "", "+", "-"]
+JSON_NUM_TOKENS = ["9223372036854775808", "18446744073709551616", "1e19", "-1e30", "9007199254740993.0", "1.0", "1e3", "-0",
+                   "256", "-129", "4294967296", "9223372036854775807"]
+
+
+def numstr_cases(rng):
+    """every int/uint width x every spelling x every from-string path: `,string` member, WithStringValues() mode
+    (form/path/header), default=, string element of a slice, number-token element of a slice and of a map"""
+    out = []
+    for k in INT_KINDS:
+        for sv in NUM_STRINGS:
+            paths = ["string", "strmode", "slice"]
+            if sv and sv == sv.strip() and "," not in sv:
+                paths.append("default")
+            for path in paths:
+                if path == "string":
+                    shape, doc = struct([field("V", "v", P(k), mkopts(string=True))]), O([("v", S(sv))])
+                elif path == "strmode":
+                    shape, doc = struct([field("V", "v", P(k))]), O([("v", S(sv))])
+                elif path == "slice":
+                    shape, doc = struct([field("V", "v", {"k": "slice", "e": P(k)})]), O([("v", A([S(sv)]))])
+                else:
+                    shape, doc = struct([field("V", "v", P(k), mkopts(default=sv))]), O([])
+                c = mkcase(rng, shape, doc, ["numstr", path], with_conf=False)
+                c["strmode"] = path == "strmode"
+                out.append(c)
+        for tok in JSON_NUM_TOKENS:
+            for path in ("slicetok", "maptok", "stringtok"):
+                if path == "slicetok":
+                    shape, doc = struct([field("V", "v", {"k": "slice", "e": P(k)})]), O([("v", A([N(tok)]))])
+                elif path == "maptok":
+                    shape, doc = struct([field("V", "v", {"k": "map", "e": P(k)})]), O([("v", O([("k1", N(tok))]))])
+                else:
+                    shape, doc = struct([field("V", "v", P(k), mkopts(string=True))]), O([("v", N(tok))])
+                out.append(mkcase(rng, shape, doc, ["numstr", path], with_conf=False))
+    return out
+
+
+# ----------------------------------------------------------------------------- floats: JSON x YAML x {float32, float64}
+FLOAT_TOKENS = ["39.9041999", "0.123456789012", "1234567.891", "1e-7", "9007199254740993.0", "9007199254740993", "0.1", "0.3",
+                "16777217", "16777216.5", "3.4028234663852886e38", "3.4028235677973366e38", "1e38", "1e39", "1e308", "1e309", "1e400",
+                "5e-324", "1e-400", "2.2250738585072014e-308", "1.17549435e-38", "1e-46", "123456789.123456789", "-0.0", "0.0",
+                "100", "1e22", "1e23", "4.35", "2.675", "1.0000001", "8.41e21", "-39.9041999", "6.02214076e23"]
+# float32 is reached through float64 (json.Number.Float64 / yaml float64 -> SetFloat): a token within half a float64 ulp
+# of a float32 midpoint is rounded twice (finding; c05_float32_double_rounding_witness) -- kept out of the stream
+FLOAT32_DOUBLE_ROUNDING = ["1.0000000596046447753906250000001"]
+
+
+def float_case(rng):
+    if rng.random() < 0.5:
+        tok = rng.choice(FLOAT_TOKENS)
+    else:
+        digits = rng.randint(1, 17)
+        m = str(rng.randint(1, 10 ** digits - 1))
+        pos = rng.randint(0, len(m))
+        tok = (m[:pos] or "0") + ("." + m[pos:] if pos < len(m) else "")
+        if rng.random() < 0.4:
+            tok += "e%d" % rng.randint(-40, 40)
+        if rng.random() < 0.3:
+            tok = "-" + tok
+        if tok.startswith("0") and len(tok) > 1 and tok[1].isdigit():
+            tok = tok.lstrip("0") or "0"
+            if tok.startswith(".") or tok.startswith("e"):
+                tok = "0" + tok
+    c = mkcase(rng, struct([]), O([]), ["float"], with_yaml=False, with_conf=False)
+    c["float"] = tok
+    return c
+
+
+# ----------------------------------------------------------------------------- outside the modelled universe
 # ----------------------------------------------------------------------------- outside the modelled universe
 def wild_type(rng, depth):
     r = rng.random()
@@ -975,6 +1115,8 @@ def generate(rng, tier, n):
         tpls = known_templates()
         for tpl in rng.sample(tpls, 8):          # small dedicated stream of known findings (classified, never new)
             cases.append(known_case(rng, tpl))
+        ns = numstr_cases(rng)                   # systematic from-string numerics: all in the thorough tier
+        cases.extend(ns if tier == "thorough" else rng.sample(ns, 60))
     depth = 2
     while len(cases) < n:
         r0 = rng.random()
@@ -986,6 +1128,12 @@ def generate(rng, tier, n):
             continue
         if r0 < 0.30:
             cases.append(confnest_case(rng))
+            continue
+        if r0 < 0.36:
+            cases.append(float_case(rng))
+            continue
+        if r0 < 0.42:
+            cases.append(marshal_case(rng))
             continue
         shape = gen_struct(rng, depth)
         r = rng.random()
@@ -1000,7 +1148,8 @@ def search(rng, problems):
 
 
 def drive(cases, tier):
-    m_in = [{"shape": c["shape"], "json": c["json"], "yaml": c["yaml"]} for c in cases]
+    m_in = [{"shape": c["shape"], "json": c["json"], "yaml": c["yaml"], "strmode": bool(c.get("strmode")),
+             "float": c.get("float", ""), "marshal": c.get("marshal")} for c in cases]
     c_in = [{"shape": c["shape"], "conf": c["conf"], "cyaml": c.get("cyaml", ""), "keys": c["keys"]} for c in cases]
     mo, log1 = run_driver("./lib/mapping", m_in, name="C05m_" + tier, timeout=DRIVER_TIMEOUT)
     if mo is None:
@@ -1017,7 +1166,10 @@ def drive(cases, tier):
     for a, b, r in zip(mo, co, ro):
         if "error" in a or "error" in b or "error" in r:
             return None, "driver error: %r %r %r" % (a, b, r)
-        obs.append({"j": a["j"], "y": a.get("y"), "c": b.get("c"), "cy": b.get("cy"), "camel": b["camel"], "rt": r if r else None})
+        if "error" in (a.get("m") or {}):
+            return None, "driver error (marshal): %r" % (a["m"],)
+        obs.append({"j": a["j"], "y": a.get("y"), "c": b.get("c"), "cy": b.get("cy"), "camel": b["camel"], "rt": r if r else None,
+                    "s": a.get("s"), "f": a.get("f"), "m": a.get("m")})
     # known findings: which single unenforced clause (if any) is the sole reason spec_ok fails -- decided in Coq
     idx = [i for i, c in enumerate(cases) if c["label"][0] == "known"]
     if idx:
@@ -1214,20 +1366,54 @@ def encode(case, obs):
         r = obs["rt"]
         parsed = r["rt"] if r.get("build", {}).get("r") == "ok" and "rt" in r else {"r": "err"}
         rt = cpair(c_val(case["value"]), c_val(r["orig"]), c_obs(parsed))
-    return "(mkcase %s %s %s %s %s %s %s %s)" % (c_ty(case["shape"]), c_jv(case["doc"]), c_obs(obs["j"]), copt(y), copt(c), keys,
-                                                 cbool("outside" in case["label"]), copt(rt))
+    st = c_obs(obs["s"]) if case.get("strmode") and obs.get("s") is not None else None
+    fl = []
+    if case.get("float") and obs.get("f"):
+        for bits in ("32", "64"):
+            r = obs["f"][bits]
+            if any(isinstance(r[x], str) and r[x].startswith("panic") for x in "jyo"):
+                fl.append("(None, Some 0%N, Some 1%N)")          # a panic is never acceptable
+            else:
+                fl.append(cpair(*[copt(None if r[x] is None else "%s%%N" % r[x]) for x in "jyo"]))
+    ma = None
+    if case.get("marshal") and obs.get("m") is not None:
+        m = obs["m"]
+        mfs = []
+        for f in case["marshal"]["shape"]["f"]:
+            tg = f["tag"].split(":")[0] if f["tag"] else None
+            mfs.append(cpair(copt(None if tg is None else cstr(tg)),
+                             "(mkfield %s %s %s %s)" % (cstr(f["key"]), c_opts(f["o"]), cbool(f["anon"]), c_ty(f["t"]))))
+        if m["r"] == "ok":
+            mo = "(MRows %s)" % clist([cpair(cstr(r[0]), cstr(r[1]), c_val(r[2])) for r in m["rows"]])
+        else:
+            mo = "MErr" if m["r"] == "err" else "MPanic"
+        ma = cpair(clist(mfs), clist([c_val(v) for v in case["marshal"]["value"][1]]), mo)
+    return "(mkcase %s %s %s %s %s %s %s %s %s %s %s)" % (
+        c_ty(case["shape"]), c_jv(case["doc"]), c_obs(obs["j"]), copt(y), copt(c), keys,
+        cbool("outside" in case["label"]), copt(rt), copt(st), clist(fl), copt(ma))
 
 
 # ----------------------------------------------------------------------------- evidence helpers
 def nontrivial(case, obs):
-    if case.get("rt"):
+    if case.get("rt") or case.get("float") or case.get("marshal"):
         return True
     return "directed" not in case["label"] and "outside" not in case["label"] and len(case["doc"][1]) > 0
 
 
 def bucket(case, obs):
+    if case.get("float"):
+        f = obs["f"]
+        return ["stream:float"] + ["float%s:%s" % (b, "ok" if f[b]["j"] is not None else "rejected") for b in ("32", "64")]
+    if case.get("marshal"):
+        return ["stream:marshal", "marshal:" + obs["m"]["r"]]
+    if case["label"][0] == "numstr":
+        return ["stream:numstr", "numstr-path:" + case["label"][1], "numstr:" + (obs["s"] if case.get("strmode") else obs["j"])["r"]]
     if case.get("rt"):
         r = obs["rt"]
+        zeros = sum(1 for v in case["value"][1] if v in (["i", "0"], ["s", ""], ["b", False], ["sl", []]))
+        dfl = sum(1 for f in case["rt_shape"]["f"] if f["o"].get("default") is not None)
+        if zeros:
+            return ["stream:roundtrip", "rt-zero-members", "rt-build:" + r.get("build", {}).get("r", "?"), "rt-parse:" + r.get("rt", {}).get("r", "none")] + (["rt-default-members"] if dfl else [])
         out = ["stream:roundtrip", "rt-build:" + r.get("build", {}).get("r", "?"), "rt-parse:" + r.get("rt", {}).get("r", "none")]
         for f in case["rt_shape"]["f"]:
             out.append("rt-part:" + f["tag"].split(":")[0])
@@ -1262,6 +1448,11 @@ def bucket(case, obs):
 
 
 def explain(case, obs):
+    if case.get("float"):
+        return ("float token %s: the JSON route, the YAML route and strconv.ParseFloat(token, bitsize) do not give the same "
+                "bit pattern (Spec.json_yaml_float_agree): %s" % (case["float"], json.dumps(obs["f"])))
+    if case.get("marshal"):
+        return "mapping.Marshal panicked on %s" % json.dumps(case["marshal"]["value"])
     if case.get("rt"):
         return ("round trip: the request struct %s sent with httpc.buildRequest/DoRequest to %s %s was not parsed back by "
                 "httpx.Parse into an equal struct: %s" % (json.dumps(case["value"]), case["method"], case["pattern"],
